@@ -357,6 +357,11 @@ def main(pid):
     mod = importlib.import_module(pid)
     seed = int(os.environ.get("VERIF_SEED", "1") or 1)
     tier = a.tier if a.tier in ("quick", "thorough") else "quick"
+    # two runs of one property against the same repo share build/run/<id>: serialise them
+    import fcntl
+    os.makedirs(os.path.join(BUILD, "run"), exist_ok=True)
+    _lk = open(os.path.join(BUILD, "run", ".%s%s.lock" % (pid, RUNSFX)), "w")
+    fcntl.flock(_lk, fcntl.LOCK_EX)
     t0 = time.time()
     if a.replay:
         return do_replay(mod, a.replay)
